@@ -1,0 +1,41 @@
+//go:build verif
+// +build verif
+
+package server
+
+import (
+	"net"
+
+	"github.com/XiaoMi/Gaea/mysql"
+)
+
+// Add-only exports for the verification harness (build tag verif), property C30.
+
+// VerifHandshakeDecision runs the real Session.handleHandshakeResponse for one
+// handshake response against the given UserManager and reports whether the
+// handshake passed and the namespace the session was bound to. The session has
+// no namespaces loaded (GetNamespace yields nil), which handleHandshakeResponse
+// tolerates. The caller's info.AuthResponse slice is handed over as is, so the
+// caller can observe whether the check wrote to it.
+func VerifHandshakeDecision(um *UserManager, info HandshakeResponseInfo) (accepted bool, namespace string, err error) {
+	m := NewManager()
+	current, _, _ := m.switchIndex.Get()
+	m.namespaces[current] = NewNamespaceManager()
+	m.users[current] = um
+
+	client, peer := net.Pipe()
+	defer client.Close()
+	defer peer.Close()
+
+	cc := new(Session)
+	cc.c = NewClientConn(mysql.NewConn(client), m)
+	cc.manager = m
+	cc.executor = newSessionExecutor(m)
+	cc.closed.Store(false)
+	cc.executor.session = cc
+
+	if err = cc.handleHandshakeResponse(info); err != nil {
+		return false, "", err
+	}
+	return true, cc.namespace, nil
+}
